@@ -15,18 +15,20 @@ def run(run):
     if not L.build(run):
         return
     quick = run.tier == "quick"
-    fams = [("f8", 4, run.seed), ("c09", 450 if quick else 7000, run.seed), ("boot", 80 if quick else 800, run.seed + 1),
+    fams = [("corpus:corpus/C09/stop-between-setconfig-and-boot.jsonl", 0, 0), ("f8", 4, run.seed), ("stale", 4, run.seed),
+            ("c09", 450 if quick else 7000, run.seed), ("boot", 80 if quick else 800, run.seed + 1),
             ("c11", 100 if quick else 1200, run.seed + 2)]
     results, cover, summary, scripts, traces = L.run_families(run, fams)
     cnt = L.classify(run, "C09", results, scripts, traces)
-    f8 = [r for r in results if r["family"] == "f8"]
-    if f8 and not any(r.get("shape") == "stop-between-setconfig-and-boot" for r in f8):
-        run.notes.append("known finding stop-between-setconfig-and-boot was NOT exhibited by the implementation in this run "
-                         "(Stop()/cancel between setConfig and boot no longer deadlocks): the entry is stale; switch the "
-                         "model to fix_c09 = true")
+    st = [r for r in results if r["family"] == "stale"]
+    if st and not any(int(r["c09"]) == 20 for r in st) and any(f["key"] == "stale-stop-on-restarted-child" for f in run.findings):
+        run.notes.append("known finding stale-stop-on-restarted-child was NOT exhibited by the implementation in this run "
+                         "(family stale: a restarted child parked before Run, then a second restart): the entry is stale; "
+                         "switch the model to fix_stale = true (driver argument stale=1)")
     L.fill_coverage(run, results, cover, summary, scripts, cnt,
-                    rule="distinct = distinct (pool, initial config, director script) among accepted traces; families: f8 (the known "
-                         "witness, mock and real nested composite children), c09 (a reload that grows/replaces/permutes/keeps the "
+                    rule="distinct = distinct (pool, initial config, director script) among accepted traces; families: corpus + f8 (the repaired "
+                         "stop-between-setconfig-and-boot witness, mock and real nested composite children; must now end unblocked), stale (the "
+                         "stale-stop witness: a restarted child parked before Run, then a second restart), c09 (a reload that grows/replaces/permutes/keeps the "
                          "membership, the reloader parked on one of 12 log records delimiting its steps, then Stop()/cancel/a second "
                          "Reload()/nothing injected, both Stop styles, 1 in 6 with a real composite.Runner child), boot (Reload/Stop/"
                          "cancel while Run is booting), c11 (unparked reload histories incl. concurrent callers)")
